@@ -406,6 +406,17 @@ def run(ctx, repo, tier):
         else:
             ctx.ok("ORD", "C09.decompose.o.order", "directions: duplicates removed by sorted first-occurrence indices (original order)", dw)
             Xe = expand(X)
+            # in-place normalisation of a local:  d = full_array[:, :3].copy(); d /= norms[:, None]   (whether `d` is a copy or a view of
+            # the argument is the ALIAS rule's business)
+            if True:
+                augs = [n for n in ast.walk(fd.node) if isinstance(n, ast.AugAssign) and isinstance(n.target, ast.Name) and isinstance(n.op, ast.Div) and
+                        ast.dump(expand(ast.Name(id=n.target.id, ctx=ast.Load()))) == ast.dump(Xe)]
+                if len(augs) == 1:
+                    base = Xe
+                    while (isinstance(base, ast.Call) and isinstance(base.func, ast.Attribute) and base.func.attr in ("copy", "astype")) or \
+                            (isinstance(base, ast.Call) and src(base.func) in ("np.array", "np.copy", "numpy.array", "np.asarray") and base.args):
+                        base = base.func.value if isinstance(base.func, ast.Attribute) and base.func.attr in ("copy", "astype") else base.args[0]
+                    Xe = ast.BinOp(left=base, op=ast.Div(), right=augs[0].value)
             okn = isinstance(Xe, ast.Call) and isinstance(Xe.func, ast.Name) and Xe.func.id in normaliser_functions(repo) and col_slice(Xe.args[0]) == (0, 3)
             is_norm = isinstance(Xe, ast.Call) and isinstance(Xe.func, ast.Name) and Xe.func.id in normaliser_functions(repo)
             cs_o = col_slice(Xe.args[0]) if is_norm and Xe.args else None
